@@ -8,7 +8,8 @@ From Cam Require Export Control.
 (* what a read of n bytes at a returns on a device whose memory is segs; a zero-length read
    performs no transaction *)
 Definition mem_read (segs : list (Z * list Z)) (a n : Z) : option (list Z) :=
-  if n =? 0 then Some [] else seg_read segs a n.
+  if (a <? 0) || (2 ^ 64 <? a + n) then None      (* outside the 64 bit address space: refused by the host *)
+  else if n <=? 0 then Some [] else seg_read segs a n.
 
 (* a little-endian unsigned register of n bytes at address a holding v *)
 Definition u_field (segs : list (Z * list Z)) (a : Z) (n : nat) (v : Z) : Prop :=
